@@ -6,6 +6,7 @@ package main
 // string / enum / object / oneof collections.
 
 import (
+	"time"
 	"encoding/json"
 	"fmt"
 	"net/url"
@@ -78,6 +79,13 @@ func wireSweepDriver(raw json.RawMessage) *Out {
 	out := &Out{Nontrivial: true, Key: fmt.Sprintf("%s|%s|%v|%s", sweepKinds[c.Kind], c.Card, c.Query, c.Value)}
 	msg := dynamicpb.NewMessage(md)
 	// a panic is caught by the worker and reported with the case; a hang by the per-case budget
+	t0 := time.Now()
+	defer func() {
+		// "in time bounded by the input size": these inputs are a few hundred bytes at most
+		if d := time.Since(t0); d > 2*time.Second && len(c.Value) < 2000 {
+			out.V("C06|slow|"+sweepKinds[c.Kind]+"|"+c.Card, "decoding the %d-byte member value %.60q into a %s field took %v", len(c.Value), c.Value, sweepKinds[c.Kind], d.Round(time.Millisecond))
+		}
+	}()
 	if c.Query {
 		err = codec.NewCodec().QueryToProto(url.Values{name: []string{c.Value}}, msg)
 	} else {
